@@ -93,7 +93,7 @@ func runC01(c *Ctx) {
 					fmt.Sprintf("step %d at pc=%d: gmars queue %v, reference queue %v", step, pc, q, ref.W[0].Queue), sc.describe())
 				return
 			}
-			if inv := g.VerifInvariants(s); len(inv) > 0 {
+			if inv := verifInvariants(s); len(inv) > 0 {
 				c.Violate("C01:invariant", fmt.Sprintf("step %d: %v", step, inv), sc.describe())
 				return
 			}
